@@ -502,15 +502,21 @@ Proof.
     + etc_facts HM HF E1. destruct (S7 eq_refl) as (T1 & T2 & T3).
       eapply IH in H; eauto. destruct H as (A & B & [[C1 C2]|(txs & m & C1 & C2 & C3 & C4 & C5 & C6)]).
       * splits; auto; try (left; split; auto; constructor; auto; fail).
-      * splits; auto. right. exists (a :: txs), m. subst r. cbn [length app]. splits; auto.
-        -- constructor; auto.
-        -- assert (tx_count (r_d s1) = tx_count (r_d s) + 1).
-           { unfold CountInv in *. pose proof (T1 HC).
-             unfold execute_transaction_and_commit in E1.
-             destruct (execute_transaction P hdr gp a (r_st s) (r_d s)) as [d' [[st' tx']|e0]]; [|inversion E1].
-             destruct (checked_add u16max (tx_count (r_d s)) 1); inversion E1; subst. cbn in *.
-             rewrite app_length in H. cbn in H. lia. }
-           lia.
+      * assert (HT : tx_count (r_d s1) = tx_count (r_d s) + 1).
+        { unfold CountInv in *. pose proof (T1 HC) as HT1.
+          unfold execute_transaction_and_commit in E1.
+          destruct (execute_transaction P hdr gp a (r_st s) (r_d s)) as [d' [[st' tx']|e0]]; [|inversion E1].
+          destruct (checked_add u16max (tx_count (r_d s)) 1); inversion E1; subst. cbn in *.
+          rewrite app_length in HT1. cbn in HT1. lia. }
+        splits; auto. right. exists (a :: txs), m. subst r. cbn [length app].
+        splits; auto; try (constructor; auto; fail); try lia.
+Qed.
+
+Lemma last_some_app : forall {A} (l : list A) m,
+  last (map Some l) None = Some m -> exists txs, l = txs ++ [m].
+Proof.
+  intros A l m H. destruct l as [|x xs] using rev_ind; [discriminate|].
+  rewrite map_app in H. cbn [map] in H. rewrite last_last in H. inversion H; subst. eauto.
 Qed.
 
 (* C03, validation (relayer disabled): an accepted block consists of non-mint transactions
@@ -536,8 +542,7 @@ Proof.
   apply validate_txs_shape in E2; try reflexivity.
   destruct E2 as (A & B & [[C1 C2]|(txs & m & C1 & C2 & C3 & C4 & C5 & C6)]).
   - (* all non-mint: contradicts the last transaction being a mint *)
-    exfalso. destruct (b_txs blk) as [|x xs] eqn:EB using rev_ind; [discriminate|].
-    rewrite map_app, last_last in EL. inversion EL; subst.
+    exfalso. apply last_some_app in EL. destruct EL as [txs EL]. rewrite EL in C1.
     apply Forall_app in C1. destruct C1 as [_ C1]. inversion C1; subst. unfold nonmint in *. congruence.
   - exists txs, m. cbn in C4. splits; auto.
 Qed.
